@@ -25,11 +25,12 @@ def load_prefix(uri: str, ns_map: dict) -> str | None:
 def generate_prefix(uri: str, ns_map: dict) -> str:
     """Generate a prefix for the given uri and append it in the prefix-URI map."""
     namespace = Namespace.get_enum(uri)
-    if namespace:
-        prefix = namespace.prefix
-    else:
-        number = len(ns_map)
+    prefix = namespace.prefix if namespace else None
+    number = len(ns_map)
+    while not prefix or prefix in ns_map:
+        # Never take over a prefix that is already bound to another uri
         prefix = f"ns{number}"
+        number += 1
 
     ns_map[prefix] = uri
 
